@@ -1210,7 +1210,12 @@ func (c *ErrorConverter) To(obj Object) (interface{}, error) {
 }
 
 func (c *ErrorConverter) From(obj interface{}) (Object, error) {
-	return NewError(obj.(error)), nil
+	err, ok := obj.(error)
+	if !ok || err == nil {
+		// a nil error (e.g. a struct field that holds no error)
+		return Nil, nil
+	}
+	return NewError(err), nil
 }
 
 // ContextConverter converts between context.Context and Context.
